@@ -72,7 +72,7 @@ def _rows_equal(ctx, a, b):
 def _cfg_frame(tier):
     out = []
     ops = ['fire', 'fire_extra', 'zero', 'elevation', 'fire_raises']
-    plan = [('A', 100.0, 'two', {}), ('B', 60.0, 'left', {}), ('E', 100.0, 'none', {})] if tier == 'quick' else \
+    plan = [('A', 100.0, 'two', {}), ('B', 60.0, 'left', {}), ('E', 100.0, 'none', {}), ('C', 100.0, 'tail', dict(relative_deg=30.0))] if tier == 'quick' else \
         [('A', 100.0, 'two', {}), ('B', 60.0, 'left', {}), ('E', 100.0, 'none', {}), ('C', 100.0, 'tail', dict(relative_deg=30.0)), ('A', 30.0, 'none', dict(look_deg=20.0))]
     for (c, step, wind, kw) in plan:
         for op in ops:
